@@ -89,10 +89,13 @@ def liveGiverJ (s : JState) (g : Option Nat) : Option Nat :=
   | some x => if isDeadJ s x then none else some x
   | none => none
 
+/-- the efuns return the time left as a C `int`: values outside the int range are converted (two's complement) -/
+def toCInt (x : Int) : Int := (x + 2147483648) % 4294967296 - 2147483648
+
 /-- expected answer of find/remove for entry e at time t; a dead owner's entry whose time has passed may
     already have been dropped by the sweep, so -1 is accepted as well -/
 def answerOk (s : JState) (e : Pend) (t r : Int) : Bool :=
-  r == e.due - t || (isDeadJ s e.owner && e.due ≤ t && r == -1)
+  r == toCInt (e.due - t) || (isDeadJ s e.owner && e.due ≤ t && r == -1)
 
 def judgeStep (s : JState) (ev : Ev) : JState :=
   match ev with
@@ -128,33 +131,43 @@ def judgeStep (s : JState) (ev : Ev) : JState :=
     let h := handleOf s o tag
     match removeOne (fun e => e.handle == h) s.pend with
     | some x =>
-      let s := if answerOk s x.1 t r then s else s.flag (.removeHandleAnswer o tag r (x.1.due - t))
+      let s := if answerOk s x.1 t r then s else s.flag (.removeHandleAnswer o tag r (toCInt (x.1.due - t)))
       -- note: an overdue entry can legitimately report -1 (= due - now); it is removed all the same
-      if r == x.1.due - t then { s with pend := x.2 } else s
+      if r == toCInt (x.1.due - t) then { s with pend := x.2 } else s
     | none => if r == -1 then s else s.flag (.removeHandleNothingPending o tag r)
   | .fh t o tag r =>
     let h := handleOf s o tag
     match s.pend.find? (fun e => e.handle == h) with
-    | some e => if answerOk s e t r then s else s.flag (.findHandleAnswer o tag r (e.due - t))
+    | some e => if answerOk s e t r then s else s.flag (.findHandleAnswer o tag r (toCInt (e.due - t)))
     | none => if r == -1 then s else s.flag (.findHandleNothingPending o tag r)
   | .rmn t o f r =>
     let cands := s.pend.filter (fun e => !e.fp && e.owner == o && e.fn == f)
     if cands.isEmpty then
       if r == -1 then s else s.flag (.removeNameNothingPending o f r)
     else
-      match removeOne (fun e => !e.fp && e.owner == o && e.fn == f && e.due - t == r) s.pend with
-      | some x => { s with pend := x.2 }
+      -- the removed one is a pending entry of that name whose time left is the answer: the earliest such, and
+      -- among those of the same second the newest (answers coincide only for times 2^32 seconds apart)
+      match minDue (fun e => !e.fp && e.owner == o && e.fn == f && toCInt (e.due - t) == r) s.pend with
+      | some e =>
+        match removeOne (fun x => x == e) s.pend with
+        | some x => { s with pend := x.2 }
+        | none => s
       | none =>
         if r == -1 && cands.all (fun e => isDeadJ s e.owner && e.due ≤ t) then s
-        else s.flag (.removeNameAnswer o f r (cands.map (fun e => e.due - t)))
+        else s.flag (.removeNameAnswer o f r (cands.map (fun e => toCInt (e.due - t))))
   | .fnm t o f r =>
     let cands := s.pend.filter (fun e => !e.fp && e.owner == o && e.fn == f)
     if cands.isEmpty then
       if r == -1 then s else s.flag (.findNameNothingPending o f r)
     else if cands.any (fun e => answerOk s e t r) then s
-    else s.flag (.findNameAnswer o f r (cands.map (fun e => e.due - t)))
+    else s.flag (.findNameAnswer o f r (cands.map (fun e => toCInt (e.due - t))))
   | .rmall _ o =>
     { s with pend := s.pend.filter (fun e => e.owner != o && !isDeadJ s e.owner) }
+  | .reload _ o =>
+    -- reload_object: the object's call_outs (and those of destructed objects) are dropped, its variables reset
+    { s with pend := s.pend.filter (fun e => e.owner != o && !isDeadJ s e.owner),
+             handles := s.handles.filter (fun p => p.1.1 != o) }
+  | .usage _ _ _ => s
   | .dest _ _ x =>
     if isDeadJ s x then s else { s with dead := x :: s.dead }
   | .info t rows =>
